@@ -275,9 +275,9 @@ func (m *modelL2) stepDeposit(x *opchildtypes.MsgFinalizeTokenDeposit, bc blockC
 				if x.Amount.IsPositive() {
 					sc.Bal.add(to, x.Amount.Denom, x.Amount.Amount.BigInt())
 				}
-				if so := sc.stepWithdraw(hs.Withdraw, bc); so.P.Kind == mustSucceed {
+				if so := sc.stepWithdraw(hs.Withdraw, bc); so.P.Kind == mustSucceed && m.evalGoodHook(hs, to, x.Amount) != triNo {
 					expect = triYes
-					if m.Params.HookMaxGas < 300_000 {
+					if m.Params.HookMaxGas < uint64(300_000+120_000*len(hs.Sends)) {
 						expect = triBand
 					}
 				}
@@ -364,7 +364,7 @@ func (m *modelL2) stepDeposit(x *opchildtypes.MsgFinalizeTokenDeposit, bc blockC
 					}
 				}
 			}
-			if hookRuns && hs != nil && (hs.Class == "good" || hs.Class == "hungry") {
+			if hookRuns && hs != nil && (hs.Class == "good" || hs.Class == "hungry" || hs.Class == "wdhook") {
 				signer := []byte(keyAddrOf(hs.Signer))
 				for _, s := range hs.Sends {
 					m.Bal.add(signer, s.Denom, new(big.Int).Neg(s.Amount))
